@@ -62,7 +62,26 @@ def arg_conv(f, by_name, expr):
     return made
 
 
-def machine(d, by_name):
+def builder_call(d, by_name):
+    """Rust expression building a value through the builder from the argument slice `a`"""
+    name = d['name']
+    k = 0
+    L = ['%s::builder()' % name]
+    for f in d['fields']:
+        if 'w' not in f['acc']:
+            continue
+        wn = 'with_' + f['name'].replace('r#', '')
+        if f.get('count') is None:
+            L.append('.%s(%s)' % (wn, arg_conv(f, by_name, 'a[%d]' % k)))
+            k += 1
+        else:
+            L.append('.%s([%s])' % (wn, ', '.join(arg_conv(f, by_name, 'a[%d]' % (k + i)) for i in range(f['count']))))
+            k += f['count']
+    L.append('.build()')
+    return ''.join(L), k
+
+
+def machine(d, by_name, has_builder=False):
     name = d['name']
     L = ['struct M_%s(%s);' % (name, name), 'impl Machine for M_%s {' % name,
          '    fn reset(&mut self, r0: u128) { self.0 = %s::new_with_raw_value(%s); }' % (name, to_base(d, 'r0')),
@@ -84,7 +103,29 @@ def machine(d, by_name):
             sn = 'set_' + f['name'].replace('r#', '')
             args = ('i, ' if f.get('count') is not None else '') + arg_conv(f, by_name, 'v')
             L.append('            %d => { self.0.%s(%s); }' % (k, sn, args))
-    L += ['            _ => {}', '        }', '    }', '}']
+    L += ['            _ => {}', '        }', '    }']
+    if has_builder:
+        call, n = builder_call(d, by_name)
+        L += ['    fn build(&mut self, a: &[u128]) -> bool { if a.len() != %d { return false; } self.0 = %s; true }' % (n, call)]
+    else:
+        L += ['    fn build(&mut self, a: &[u128]) -> bool { false }']
+    raw = lambda e: base_to_u128(d, '(%s).raw_value()' % e)
+    dflt = d.get('default') is not None
+    L += ['    fn facts(&self) -> String {',
+          '        fn is_copy<T: Copy + Clone>() {}',
+          '        is_copy::<%s>();' % name,
+          '        const Z: %s = %s::ZERO;' % (name, name),
+          '        format!("{} {} {:x} {:x} {} {} {}", core::mem::size_of::<%s>(), core::mem::align_of::<%s>(), %s, %s, %s, %s, %s)' % (
+              name, name, raw('%s::ZERO' % name), raw('Z'),
+              'format!("{:x}", %s)' % raw('%s::DEFAULT' % name) if dflt else '"-"',
+              'format!("{:x}", %s)' % raw('<%s as Default>::default()' % name) if dflt else '"-"',
+              'format!("{:x}", %s)' % raw('%s::new()' % name) if dflt else '"-"'),
+          '    }']
+    if d.get('debug'):
+        L += ['    fn dbg(&self) -> Option<(String, String)> { Some((format!("{:?}", self.0), format!("{:#?}", self.0))) }']
+    else:
+        L += ['    fn dbg(&self) -> Option<(String, String)> { None }']
+    L += ['}']
     return L
 
 
@@ -119,6 +160,9 @@ trait Machine {
     fn get(&self, f: usize, i: usize) -> (u8, u128);
     fn with(&mut self, f: usize, i: usize, v: u128);
     fn set(&mut self, f: usize, i: usize, v: u128);
+    fn build(&mut self, a: &[u128]) -> bool;
+    fn facts(&self) -> String;
+    fn dbg(&self) -> Option<(String, String)>;
 }
 trait EnumMachine {
     fn conv(&self, x: u128) -> String;
@@ -164,6 +208,20 @@ fn main() {
                      match r { Ok(()) => { let mm = m.as_ref().unwrap();
                                  match panic::catch_unwind(AssertUnwindSafe(|| mm.raw())) { Ok(x) => writeln!(out, "{:x}", x).unwrap(), Err(_) => writeln!(out, "P").unwrap() } }
                                Err(_) => writeln!(out, "P").unwrap() } }
+            "B" => { let a: Vec<u128> = it.map(hex).collect();
+                     let mm = m.as_mut().unwrap();
+                     match panic::catch_unwind(AssertUnwindSafe(|| mm.build(&a))) {
+                        Ok(true) => { let mm = m.as_ref().unwrap();
+                                 match panic::catch_unwind(AssertUnwindSafe(|| mm.raw())) { Ok(x) => writeln!(out, "{:x}", x).unwrap(), Err(_) => writeln!(out, "P").unwrap() } }
+                        Ok(false) => writeln!(out, "M").unwrap(),
+                        Err(_) => writeln!(out, "P").unwrap() } }
+            "Q" => { let mm = m.as_ref().unwrap();
+                     match panic::catch_unwind(AssertUnwindSafe(|| mm.facts())) { Ok(s) => writeln!(out, "{}", s).unwrap(), Err(_) => writeln!(out, "P").unwrap() } }
+            "F" => { let mm = m.as_ref().unwrap();
+                     match panic::catch_unwind(AssertUnwindSafe(|| mm.dbg())) {
+                        Ok(Some((a, b))) => writeln!(out, "{} ||| {}", a.replace("\\n", "\\\\n"), b.replace("\\n", "\\\\n")).unwrap(),
+                        Ok(None) => writeln!(out, "M").unwrap(),
+                        Err(_) => writeln!(out, "P").unwrap() } }
             _ => { writeln!(out, "?").unwrap(); }
         }
     }
@@ -171,7 +229,7 @@ fn main() {
 '''
 
 
-def runner_source(ds, by_name, enums=()):
+def runner_source(ds, by_name, enums=(), builders=()):
     L = [RUNNER_HEAD]
     for d in enums:
         L += enum_machine(d)
@@ -183,7 +241,7 @@ def runner_source(ds, by_name, enums=()):
     L.append('    }')
     L.append('}')
     for d in ds:
-        L += machine(d, by_name)
+        L += machine(d, by_name, d['name'] in builders)
     L.append('fn make(name: &str) -> Option<Box<dyn Machine>> {')
     L.append('    match name {')
     for d in ds:
